@@ -182,3 +182,14 @@ NOT_DECIDED = [
     "blob sizes or usage totals above 2**53 bytes (float rounding would start there)",
 ]
 ASSUMPTIONS = ["analytics is None (the analytics branch only schedules a fire-and-forget task)"]
+
+
+# ------------------------------------------------------------------ the storage side of "never the user's own blobs"
+# The call-site contract used above (get_stored_blobs(is_mine=False) returns only blobs that are not the user's, and a blob
+# the user published keeps is_mine=1 whatever later completions/re-downloads record) lives in lbry/extras/daemon/storage.py.
+# It is checked by the bounded SQL differential and the blob_completed proof written for C18 (contracts/c18.py), registered
+# here as well because a change to those statements breaks C19.
+from contracts import c18 as _c18      # noqa: E402
+
+proof("C19", "storage.sql-differential")(type('SqlDifferentialC19', (_c18.SqlDifferential,), {}))
+proof("C19", "storage.ownership-kept-on-completion")(type('CompletedC19', (_c18.Completed,), {}))
